@@ -129,7 +129,7 @@ func privateWork(r *core.RNG, iters int, yield bool) (ops int, err error) {
 }
 
 func runC10Race(c *core.Ctx) {
-	rounds := c.N(40, 800)
+	rounds := c.N(40, 2500)
 	for h := int64(0); h < rounds; h++ {
 		if !c.Mine("race-history", h) {
 			continue
